@@ -51,9 +51,9 @@ def unit_bin(eng):
         kind, val = outcome
         fits = z3.And(base >= 0, base < 65536, slen(code) < 65536)
         if kind == "raise":
-            region = (slen(code) >= 65536) if "D8" in common.ACTIVE_FINDINGS else None
-            eng.prove("bin-never-raises-for-a-16-bit-base (image length is not limited by the caller: finding D8)", False, region=region)
-            eng.prove("raises-only-when-base-or-length-exceeds-16-bits", z3.Not(fits))
+            # the 16-bit length field cannot hold a longer image: struct.error, which emit_files and the command line turn into a report (D8, fixed;
+            # obligations Compiler.emit_files[*]::a-container-that-cannot-be-built... and main_cli[*]::failure-status-iff...)
+            eng.prove("raises-only-struct.error-and-only-when-base-or-length-exceeds-16-bits", z3.And(z3.BoolVal(val.cls == "struct.error"), z3.Not(fits)))
             return
         eng.prove("returns-only-when-base-and-length-fit", fits)
         eng.prove("bin-is-base-length-little-endian-then-the-bytes", zbytes(val) == z3.Concat(le16(base), le16(slen(code)), code))
@@ -488,9 +488,18 @@ def witness_D1(tree):
 
 
 def witness_D8(tree):
-    code = "from pdpy11.formats import file_formats\ntry:\n    result = file_formats['bin'](512, bytes(65536)).hex()[:8]\nexcept Exception as e:\n    result = 'EXC:' + type(e).__name__\n"
-    r = driver.native([{"kind": "py", "code": code}], tree)[0]
-    return str(r.get("result")).startswith("EXC"), "bin of a 65536-byte image: %s" % r.get("result")
+    """the real command line on an image of 120000 bytes with a bin output: the internal-error path instead of a diagnostic"""
+    import subprocess
+    import tempfile
+    import shutil
+    d = tempfile.mkdtemp(prefix="pyvc-d8-")
+    try:
+        open(os.path.join(d, "p.mac"), "w").write(".blkb 60000.\n.blkb 60000.\n")
+        p = subprocess.run(["/venv/bin/python", "-c", "import sys; sys.path.insert(0, %r); sys.argv = ['pdpy11'] + sys.argv[1:]; from pdpy11._cli import main_cli; main_cli()" % tree,
+                            "p.mac", "-o", "big.bin"], cwd=d, capture_output=True, text=True, timeout=120)
+        return "internal compiler error" in p.stderr, "-o big.bin for an image of 120000 bytes: exit %d, %s" % (p.returncode, "internal-error path" if "internal compiler error" in p.stderr else "reported")
+    finally:
+        shutil.rmtree(d, ignore_errors=True)
 
 
 FINDING_WITNESS = {"D1": witness_D1, "D8": witness_D8}
